@@ -135,6 +135,16 @@ Definition c07_holds (expected : json) (nfaults : nat) (o : observed) : bool :=
   | _ => false
   end.
 
+(* C07, containment at the root: every response key a root call that did not fail was asked for, and
+   that the reference answers, is a key of the data returned (the data is not dropped as a whole,
+   nor that call's share of it, because some other call failed) *)
+Definition root_keys_kept (keys : list string) (expected : json) (o : observed) : bool :=
+  let obj (j : json) := match j with JObj m => m | _ => [] end in
+  forallb (fun k => match jget k (obj expected) with
+                    | Some _ => match jget k (obj (ob_data o)) with Some _ => true | None => false end
+                    | None => true
+                    end) keys.
+
 (* C11: N requests on shared plans.  Per request: its own variables, what a solitary execution on
    a freshly planned plan gave, what it gave when run together with the others on the shared plans,
    and what it gave when run once more afterwards on the same plans. *)
